@@ -97,10 +97,14 @@ def spec_time_shift(c, z, shift, crop=False):
         raise PyExc("ValueError", "shift has too many dimensions")
     S = g.data.shape[1:]
     s_of, space, s_at = shift_per_element(c, s, S)
-    tiny = Fraction(1, 10 ** 8)
-    allzero = V.And(*[V.And(V.le(s_at(m), tiny), V.le(V.neg(tiny), s_at(m))) for m in space])
+    allzero = V.And(*[V.eq(s_at(m), 0) for m in space])
     if c.branch(allzero, "all shifts are zero"):
-        return z
+        return z            # a delay by 0 samples is the identity and zero-fills nothing (ceil(0) = 0)
+    tiny = Fraction(1, 10 ** 8)
+    alltiny = V.And(*[V.And(V.le(s_at(m), tiny), V.le(V.neg(tiny), s_at(m))) for m in space])
+    if c.branch(alltiny, "all shifts within 1e-8 of zero (not all exactly zero)"):
+        # the statement has no tolerance: a shift of 1e-9 samples still zero-fills ceil(s) = 1 sample
+        c.tag("shift-below-1e-8")
     F = opaque_op(ctx, "fft", g.data, 0)
     two_pi = V.mul(2, V.PI)
 
@@ -134,7 +138,9 @@ def spec_time_shift(c, z, shift, crop=False):
         sm = s_at(m)
         start = V.vmax(start, V.Ite(V.le(0, sm), V.ceil_real(ctx, sm), 0))
         stop = V.vmin(stop, V.Ite(V.lt(sm, 0), V.floor_real(ctx, sm), 0))
-    sl = SSlice(V.simp(start), V.simp(V.add(N, stop)), None)
+    # statement: "the crop=False result with exactly those edge samples removed" -- the kept samples are
+    # start <= k < N + stop, none at all when the removed edges cover the signal (|s| >= N, mixed signs)
+    sl = SSlice(V.simp(start), V.simp(V.vmax(0, V.add(N, stop))), None)
     a, b, st = A.slice_adjust(ctx, sl, N)
     if g.t0 is not None:
         attrs["start_time"] = time_plus(c, g.t0, V.div(ctx, a, g.sr.val))
